@@ -169,6 +169,8 @@ class Check:
         """A replayed (reproduced against the real code) violation.  `key` is the stable
         finding key matched against known_findings.json."""
         self.replays_run += 1
+        if any(v["key"] == key for v in self.violations) or any(v["key"] == key for v in self.known_hits):
+            return False   # one line per finding key
         for k in self.known.get("known", []):
             if k.get("property") == self.prop and k.get("key") == key:
                 self.known_hits.append(dict(key=key, what=what))
